@@ -82,6 +82,28 @@ def run(chk, facts):
     envflow.check_unassigned_join(chk, facts, "R-C09-3")
     envflow.check_unassigned_closed(chk, facts, "R-C09-3")
     try:
+        gc_ = syn.one_fn("gen_call", mod="check::constrain::generate::call")
+        arm_ = _arm(gc_, "Node::Reassign")
+        folds = [n for n in walk(arm_["body"]) if n.get("k") == "mcall" and n["m"] == "fold" and "assigned_to" in src(n)]
+        ok = False
+        if len(folds) == 1:
+            chain = []
+            cur = strip(folds[0]["recv"])
+            while cur.get("k") == "mcall":
+                chain.append(cur)
+                cur = strip(cur["recv"])
+            names = [c["m"] for c in reversed(chain)]
+            sel = [c for c in chain if c["m"] == "flat_map"]
+            bodies = [src(strip(strip(c["args"][0])["body"])).replace(" ", "") for c in sel if strip(c["args"][0]).get("k") == "closure"]
+            ok = names == ["all_calls", "iter", "flat_map", "flat_map"] and src(cur) == "identifier" and \
+                "call.without_obj(arg::SELF,left.pos)" in bodies and \
+                any(b.startswith("matchidenti_call{IdentiCall::Iden(var)=>Some(var)") and b.endswith("_=>None}") for b in bodies)
+        chk.ob("R-C09-3", "assignment-marks-direct-self-field-only", ok,
+               "an assignment marks a field as assigned only when the target is `self.<field>` itself" if ok else
+               "the set of fields an assignment marks as assigned is no longer `self.<field>` only: `self.a.b := e` (which *reads* a) can mark `a` as assigned", facts.loc_of(gc_))
+    except AnchorError as e:
+        chk.anchor_fail("R-C09-3", e)
+    try:
         pc = syn.one_fn("property_call", mod="check::constrain::generate::call")
         loc = facts.loc_of(pc)
         ok = False
